@@ -23,6 +23,7 @@ SFTP file object
 
 from binascii import hexlify
 from collections import deque
+import errno
 import socket
 import threading
 import time
@@ -267,12 +268,15 @@ class SFTPFile(BufferedFile):
         """
         self.flush()
         if whence == self.SEEK_SET:
-            self._realpos = self._pos = offset
+            newpos = offset
         elif whence == self.SEEK_CUR:
-            self._pos += offset
-            self._realpos = self._pos
+            newpos = self._pos + offset
         else:
-            self._realpos = self._pos = self._get_size() + offset
+            newpos = self._get_size() + offset
+        if newpos < 0:
+            # like a local file: a negative position is refused, not stored
+            raise IOError(errno.EINVAL, "Invalid argument")
+        self._realpos = self._pos = newpos
         self._rbuffer = bytes()
 
     def stat(self):
